@@ -207,6 +207,7 @@ const MINDUSTRY: Table = Table {
     fields: &[
         ("description", Some("/description")),
         ("map", Some("/map")),
+        ("game_mode", Some("~/gamemode")),
         ("game_version", None),
         ("players_bots", None),
         ("has_password", None),
@@ -286,8 +287,16 @@ fn check_view(t: &Table, r: &dyn CommonResponse, specific: &Value) -> Option<(St
     let cj = to_json(&r.as_json());
     for (name, got) in &acc {
         let Some((_, ptr)) = t.fields.iter().find(|(n, _)| n == name) else { continue };
+        // `~/pointer`: the specific field is an enum; the view gives its name as text, compared without regard to case
         let want = match ptr {
             None => Value::Null,
+            Some(p) if p.starts_with('~') => {
+                let w = specific.pointer(&p[1 ..]).cloned().unwrap_or(Value::Null);
+                match (&w, got) {
+                    (Value::String(a), Value::String(b)) if a.to_lowercase() == b.to_lowercase() => got.clone(),
+                    _ => w,
+                }
+            }
             Some(p) => specific.pointer(p).cloned().unwrap_or(Value::Null),
         };
         if *got != want {
